@@ -29,8 +29,8 @@ ASSUMPTIONS = [
     "TypeError parity is judged on 'raises TypeError', not on the message; parameter names avoid binder internals",
 ]
 EXHAUSTIVE = {"quick": True, "thorough": True}
-PLAN = {"quick": dict(max_per_kind=1, variants=("function", "method", "instance"), shapes_cap=60, extra_sigs=300),
-        "thorough": dict(max_per_kind=2, variants=("function", "method", "static", "classmethod", "instance", "class"), shapes_cap=400, extra_sigs=6000)}
+PLAN = {"quick": dict(max_per_kind=1, variants=("function", "method", "instance", "decorated"), shapes_cap=60, extra_sigs=300),
+        "thorough": dict(max_per_kind=2, variants=("function", "method", "static", "classmethod", "instance", "class", "decorated"), shapes_cap=400, extra_sigs=6000)}
 FLOORS = {"quick": {"calls_compared": 20000, "rows_hit": 32, "binder_classes_hit": 14, "rejected_shapes_checked": 2500, "wrap_metadata_checked": 300,
                     "postponed_annotation_modules": 100, "calls_with_composite_annotations": 3000},
           "thorough": {"calls_compared": 600000, "rows_hit": 32, "binder_classes_hit": 15, "rejected_shapes_checked": 60000, "wrap_metadata_checked": 5000,
@@ -248,6 +248,9 @@ def build_variants(src, params, variants, modname, future=False):
     sys.modules[modname] = mod
     out = {}
     code = ("from __future__ import annotations\n" if future else "") + PRELUDE + src + "\n"
+    # the same callee behind a functools.wraps decorator that changes the result: wrap()/bind() must call the DECORATED callable
+    code += ("import functools\ndef _deco(fn):\n    @functools.wraps(fn)\n    def inner(*a, **k):\n        r = fn(*a, **k)\n"
+             "        return {**r, '_decorated': True}\n    return inner\ndecorated = _deco(f)\n")
     code += "class Holder:\n"
     code += "\n".join("    " + l for l in render(params, "meth", first="self").splitlines()) + "\n"
     code += "    @staticmethod\n" + "\n".join("    " + l for l in render(params, "smeth").splitlines()) + "\n"
@@ -259,7 +262,7 @@ def build_variants(src, params, variants, modname, future=False):
     code += "class Klass:\n" + "\n".join("    " + l for l in init.splitlines()) + "\n"
     exec(compile(code, f"/verif/out/generated/{modname}.py", "exec"), mod.__dict__)
     h = mod.Holder()
-    allv = {"function": mod.f, "method": h.meth, "static": mod.Holder.smeth, "classmethod": mod.Holder.cmeth, "instance": h, "class": mod.Klass}
+    allv = {"decorated": mod.decorated, "function": mod.f, "method": h.meth, "static": mod.Holder.smeth, "classmethod": mod.Holder.cmeth, "instance": h, "class": mod.Klass}
     return {v: allv[v] for v in variants}, mod
 
 
@@ -304,7 +307,7 @@ def run_shard(sh):
                 try:
                     with quiet():
                         bound = binding.bind(target)
-                        wrapped = binding.wrap(getattr(mod, "f") if vname == "function" else target) if vname in ("function", "method", "instance") else None
+                        wrapped = binding.wrap(getattr(mod, "f") if vname == "function" else target) if vname in ("function", "method", "instance", "decorated") else None
                 except Exception as e:  # noqa: BLE001
                     sh.violation("bind-raised", signature=src.splitlines()[0], variant=vname, exc=type(e).__name__, detail=str(e)[:200])
                     continue
@@ -327,6 +330,12 @@ def run_shard(sh):
                         got = observe(fn, args, kwargs)
                         if vname == "class" and got[0] == "ok":
                             got = ("ok", getattr(got[1], "received", None))
+                        if vname == "decorated" and got[0] == "ok":
+                            # the decorator's mark must be on the result (the decorated callable was the one invoked)
+                            if not (isinstance(got[1], dict) and got[1].get("_decorated") is True):
+                                sh.violation("decorated-callable-bypassed", signature=src.splitlines()[0], via=how, got=short(got, 200))
+                            else:
+                                got = ("ok", {k_: v_ for k_, v_ in got[1].items() if k_ != "_decorated"})
                         sh.count("calls_compared")
                         if want[0] == "typeerror":
                             sh.count("rejected_shapes_checked")
